@@ -203,6 +203,8 @@ def prerun_matrix(rng, tier):
 
 class OkHandler(http.server.BaseHTTPRequestHandler):
     def do_GET(self):
+        if self.path.startswith('/slow'):
+            time.sleep(6.5)   # a long request: outlives deploy-timeout + 5 s, well inside the drain timeout
         self.send_response(200)
         self.send_header('Content-Length', '2')
         self.end_headers()
@@ -218,7 +220,8 @@ def live_proxy(rng, tier):
     home = tempfile.mkdtemp(prefix='verif-cli-', dir=os.path.join(BUILD, 'tmp'))
     servers = []
     penv = {'PATH': os.environ.get('PATH', ''), 'HOME': home, 'XDG_RUNTIME_DIR': home}
-    proxy = subprocess.Popen([BIN, 'run', '--http-port', str(free_port()), '--https-port', str(free_port())], env=penv,
+    http_port = free_port()
+    proxy = subprocess.Popen([BIN, 'run', '--http-port', str(http_port), '--https-port', str(free_port())], env=penv,
                              stdout=subprocess.PIPE, stderr=subprocess.PIPE)
     try:
         t0 = time.time()
@@ -287,6 +290,44 @@ def live_proxy(rng, tier):
         expected[ns[0]]['state'] = 'running'
         client(['remove', ns[2]], True, 'remove')
         del expected[ns[2]]
+        # behaviour through the RPC layer that exit codes alone do not show
+        import http.client as hc
+
+        def get(host, path, timeout):
+            try:
+                c = hc.HTTPConnection('127.0.0.1', http_port, timeout=timeout)
+                c.request('GET', path, headers={'Host': host})
+                r = c.getresponse()
+                r.read()
+                return r.status
+            except Exception as e:
+                return 'timeout' if 'timed out' in str(e) else f'error {type(e).__name__}'
+
+        def behaviour(label, ok, detail=''):
+            ops.append(f'# behaviour {label}')
+            impl.append(f'# behaviour {label}' if ok else f'# behaviour {label} MISMATCH {detail}')
+
+        # (a) `pause --max-pause 0s`: nothing is held, a request gets its 504 at once
+        zp = 'zero-pause'
+        client(['deploy', zp, '--target', target(), '--host', 'zp.example.com', '--deploy-timeout', '5s'], True, 'deploy zero-pause')
+        client(['pause', zp, '--max-pause', '0s', '--drain-timeout', '1s'], True, 'pause max-pause 0')
+        t1 = time.time()
+        st = get('zp.example.com', '/', 4)
+        behaviour('max-pause 0s answers 504 at once', st == 504 and time.time() - t1 < 2.5, f'status={st} after={time.time() - t1:.1f}s')
+        client(['remove', zp], True, 'remove zero-pause')
+        # (b) a redeploy whose drain outlasts deploy-timeout by far still reports success (exit 0 when the proxy says ok)
+        ld = 'long-drain'
+        client(['deploy', ld, '--target', target(), '--host', 'ld.example.com', '--deploy-timeout', '5s'], True, 'deploy long-drain')
+        slow = {}
+        th = threading.Thread(target=lambda: slow.update(st=get('ld.example.com', '/slow', 20)), daemon=True)
+        th.start()
+        time.sleep(0.4)
+        t1 = time.time()
+        client(['deploy', ld, '--target', target(), '--host', 'ld.example.com', '--deploy-timeout', '500ms', '--drain-timeout', '30s'], True, 'redeploy with a long drain')
+        took = time.time() - t1
+        th.join(15)
+        behaviour('long drain: the request in flight finishes and the deploy waits for it', slow.get('st') == 200 and 4.5 < took < 12, f'request={slow.get("st")} deploy_took={took:.1f}s')
+        client(['remove', ld], True, 'remove long-drain')
         rc, out = client(['list'], True, 'list')
         rows = ['|'.join([r['name'], r['host'], r['path'], r['target'], r['state'], r['tls']]) for r in expected.values()]
         ops.append('list rows=' + L(rows))
